@@ -391,6 +391,16 @@ def run(ctx: Context) -> None:
     for i in sub.instances:
         ctx.add("R6", i.key.split("/", 2)[2], i.ok, i.where, i.detail)
     ctx.floor("R6", "argument serialisation sites", ctx.count("R6"), 3)
+    # R7: the in-memory indexes the lookup reads keep every live invocation: cleaning up ONE invocation removes that member,
+    # never the whole key reached through it (shared with C16/R7)
+    from . import c16
+
+    ctx.rule("R7", "the task / call / argument indexes lose a whole key only when it is empty: removing one invocation (purge, clean-up) drops that member, not every invocation stored under its task or call (shared with C16/R7) - a RUNNING invocation that vanished from the index is invisible to the concurrency lookup")
+    sub7 = Context("C16", ctx.repo, ctx.tier, ctx.seed)
+    sub7._resolver = ctx._resolver
+    c16.r7(sub7, ["BaseOrchestrator"])
+    for i in sub7.instances:
+        ctx.add("R7", i.key.split("/", 2)[2], i.ok, i.where, i.detail)
     ctx.exhaustive = True
     ctx.not_decided += [
         "'different keys never block one another' beyond R5 (equality of serialised values is C15)",
